@@ -1,4 +1,5 @@
 """C12 - Clusters and TreeBandit condition on exactly the query's cell."""
+import copy
 import math
 
 import numpy as np
@@ -249,7 +250,35 @@ def tree_plan_st(draw, tier):
         gen.step_any(h, ["partial_fit", "partial_fit", "partial_fit", "fit", "add_arm", "remove_arm", "predict",
                          "predict_expectations"])
     queries = draw(gen.contexts_st(draw(st.integers(1, 4)), h.d, h.grid))
-    return {"config": cfg, "ops": h.ops, "queries": queries, "tree_parameters": dict(tp)}
+    wide = None
+    if draw(st.integers(0, 14)) == 0:
+        # embedding-sized contexts: the generated features sit in the middle of 1200 columns, all others are zero
+        # (rows then agree in their first and last columns and differ in between)
+        wide = {"d": 1200, "active": sorted(draw(st.lists(st.integers(400, 800), min_size=h.d, max_size=h.d,
+                                                              unique=True)))}
+        if len(queries) < 2:
+            queries = queries + draw(gen.contexts_st(2, h.d, h.grid))
+    return {"config": cfg, "ops": h.ops, "queries": queries, "tree_parameters": dict(tp), "wide": wide}
+
+
+def widen(plan):
+    w = plan["wide"]
+
+    def full(row):
+        out = [0] * w["d"]
+        for pos, v in zip(w["active"], row):
+            out[pos] = v
+        return out
+
+    p = copy.deepcopy(plan)
+    for op in p["ops"]:
+        if op[0] in ("fit", "partial_fit"):
+            op[3] = [full(r) for r in op[3]]
+        elif op[0] in ("predict", "predict_expectations") and op[1] is not None:
+            op[1] = [full(r) for r in op[1]]
+    p["queries"] = [full(q) for q in p["queries"]]
+    p["wide"] = None
+    return p
 
 
 def tree_strategy(tier, ctx):
@@ -258,6 +287,9 @@ def tree_strategy(tier, ctx):
 
 def evaluate_tree(plan, ctx):
     from sklearn.tree import DecisionTreeRegressor
+    was_wide = bool(plan.get("wide"))
+    if was_wide:
+        plan = widen(plan)
     cfg = plan["config"]
     name, params = cfg["lp"]
     mab = ops.build(cfg)
@@ -290,6 +322,8 @@ def evaluate_tree(plan, ctx):
     d = len(plan["queries"][0])
     grid = [[v] * d for v in (-3, -1, 0, 1, 3)] + plan["queries"]
     ev = ["lp=" + name, "params=" + (",".join(sorted(plan["tree_parameters"])) or "default")]
+    if was_wide:
+        ev.append("contexts_with_1200_columns")
     leaves_max = 1
     trees = mab._imp.arm_to_tree
     for a in arms:
